@@ -21,7 +21,10 @@ impl TryFrom<u8> for PropType {
             0b0001_0000 => Ok(Self::ContentAddress),
             0b0010_0000 => Ok(Self::UnsignedInt),
             0b0011_0000 => Ok(Self::SignedInt),
-            0b0100_0000 => todo!(), // Redirection and SubRange
+            // Redirection and SubRange
+            0b0100_0000 => Err(format_error!(
+                "Redirection and SubRange properties are not supported"
+            )),
             0b0101_0000 => Ok(Self::Array),
             0b1000_0000 => Ok(Self::VariantId),
             0b1010_0000 => Ok(Self::DeportedUnsignedInt),
